@@ -374,7 +374,7 @@ func (e *Engine) initGhostVal(k string) Value {
 	if g, ok := e.initGhost[k]; ok {
 		return g
 	}
-	v := e.freshVar("ghost_"+k, SInt)
+	v := e.freshVar("ghost_"+k, e.ghostSort(k))
 	e.initGhost[k] = v
 	return v
 }
@@ -538,9 +538,9 @@ func (e *Engine) checkPre(fr *Frame, st *State, con *Contract, fn *ssa.Function,
 	}
 	ord := e.ordinal(fr.fn, ins, "")
 	for _, cl := range con.Cases[0].Requires {
-		g := ctx.boolean(cl.E)
+		g, note := ctx.goal(cl.E)
 		name := fmt.Sprintf("%s/pre@%s%s#%d.%d", e.curFn, con.Key, fr.callPath, ord, cl.Ord)
-		e.addObl(st, name, "pre", cl.Tags, g, "precondition of "+con.Key+": "+cl.Text, e.posStr(ins.Pos()))
+		e.addObl(st, name, "pre", cl.Tags, g, "precondition of "+con.Key+": "+cl.Text+note, e.posStr(ins.Pos()))
 		st.assume(g)
 	}
 }
